@@ -35,6 +35,10 @@ CLAIMED = {
    text="Proof (Lean 4): C10_roundtrip — for every Unicode string s, reading (with a conforming JSON string reader, incl. \\uXXXX and surrogate pairs) what serde_json's string writer produces for s yields exactly s; C10_token_roundtrip, C10_escape_injective, C10_body_has_no_raw_control. The writer/reader models are tied to serde_json by a differential run over hostile strings and arbitrary token bodies; histories with hostile ids, file names, content directories, users, addresses and messages are run through the repository model, and the oracle re-reads every staged inventory with Python's json and compares with what was accepted and with what rocfl reads back. Three genuine defects found and repaired (known-findings.json).",
    note="Trusted: Lean kernel + 3 standard axioms; JSON structure outside string tokens is serde_json's (exercised, not modelled); create_object trims ids — the accepted id is the trimmed one; Python json as the 'conforming parser'.",
    technique="Lean 4 round-trip theorem over all strings + differential correspondence (writer, reader, histories)", design="§5-C10"),
+ "C19": dict(
+   text="Proof (Lean 4): C19_id_prefilter — for every non-empty Unicode id and both serialisations rocfl writes, the scan's id pre-filter (pattern search in inventory.json + JSON decoding, as repaired) extracts exactly the object's id, so exact lookups and glob filters see the real id; C19_staging_never_lists, C19_purged_not_found, C19_committed_is_found over the repository state machine. The directory walk itself (object root = directory holding a 0=ocfl_object_* file; no descent into object roots) is tied by the differential run only: histories with up to five objects, hostile ids, all layouts and no layout, where `ls`, `ls <glob>`, `ls -S` and opening every id are compared with the model and judged by an oracle that tracks the set of live ids. Known finding C19-K1 (object roots below a directory named 'extensions' are invisible).",
+   note="Trusted: Lean kernel + 3 standard axioms; globset is modelled for literals, * and ? (byte-wise, as globset matches); regex/grep crates exercised, modelled by Scan.lean; Python oracle.",
+   technique="Lean 4 theorem on the id pre-filter + frame theorems + differential history correspondence", design="§5-C19"),
 }
 NOT_YET = "not claimed yet: model/theorems for this property are still under construction in this round (see DESIGN.md §11 order of work)"
 checks = []
